@@ -138,19 +138,35 @@ Print Assumptions C13_repeated_open_ignored.
    the RE-CONFIG task; the task sends an outgoing-stream reset request for exactly stream i;
    when the peer's response arrives the channel becomes `closed` with one `close` event, the id
    is unregistered, and a new channel may be created with id i at once. *)
-Theorem C13_close_frees_id : forall s h i, cinv s -> (h < length (chans s))%nat ->
+Theorem C13_close_frees_id : forall s h i hs, cinv s -> (h < length (chans s))%nat ->
   ch_state (getc s h) = Open -> ch_id (getc s h) = Some i ->
   established s = true -> rq_request s = None -> rq_queue s = [] ->
-  let s1 := fst (step s (IClose h)) in
+  let s1 := fst (step s (IClose h hs)) in
   let s2 := fst (step s1 ITransmitReconfig) in
   let s3 := fst (step s2 (IResetResponse (rq_req_seq s))) in
-  ch_state (getc s1 h) = Closing /\ snd (step s (IClose h)) = [EvSchedReconfig] /\
+  ch_state (getc s1 h) = Closing /\ snd (step s (IClose h hs)) = [EvSchedReconfig] /\
   snd (step s1 ITransmitReconfig) = [EvReconfigRequest (rq_req_seq s) [i]] /\
   ch_state (getc s3 h) = Closed /\ snd (step s2 (IResetResponse (rq_req_seq s))) = [EvClose h] /\
   tget (table s3) i = None /\
   (forall neg ordered maxrt maxlt label proto, ~ In (EvRaise 1) (snd (create s3 neg (Some i) ordered maxrt maxlt label proto))).
 Proof. exact close_frees_id. Qed.
 Print Assumptions C13_close_frees_id.
+
+(* 8b. close() while this end's association is still being set up (COOKIE_WAIT / COOKIE_ECHOED;
+   hs = true) on a channel the peer already knows (it has stream id i, e.g. it was opened by the
+   peer's DATA_CHANNEL_OPEN): the channel is `closing`, stays registered, the reset of stream i is
+   queued; becoming established schedules the RE-CONFIG task and the task requests the reset of
+   exactly stream i - the peer is told, it is not left with a channel that never closes. *)
+Theorem C13_close_during_handshake : forall s h i, (h < length (chans s))%nat ->
+  rank (ch_state (getc s h)) <= 1 -> ch_id (getc s h) = Some i ->
+  established s = false -> rq_request s = None -> rq_queue s = [] ->
+  let s1 := fst (step s (IClose h true)) in
+  let s2 := fst (step s1 IEstablished) in
+  ch_state (getc s1 h) = Closing /\ table s1 = table s /\ rq_queue s1 = [i] /\
+  In EvSchedReconfig (snd (step s1 IEstablished)) /\
+  snd (step s2 ITransmitReconfig) = [EvReconfigRequest (rq_req_seq s) [i]].
+Proof. exact close_during_handshake. Qed.
+Print Assumptions C13_close_during_handshake.
 
 (* 9. Out-of-band negotiated channels pair up by id at each endpoint.  Creating a negotiated
    channel with an unused id i registers it under i without queueing anything for the peer; it is
@@ -186,10 +202,19 @@ Print Assumptions C13_negotiated_opens_when_established.
    close, reset response: the channel walks connecting -> open -> closing -> closed *)
 Example C13_example :
   let ins := [ICreate false None true None None [104; 105] []; IEstablished; IFlush [false; false];
-              IRecv 1 WEBRTC_DCEP [DATA_CHANNEL_ACK] true []; IClose 0; ITransmitReconfig; IResetResponse 100] in
+              IRecv 1 WEBRTC_DCEP [DATA_CHANNEL_ACK] true []; IClose 0 false; ITransmitReconfig; IResetResponse 100] in
   let '(s, evs) := run (init 1 100) ins in
   map (fun e => (opens 0 e, closes 0 e)) evs = [(0, 0); (0, 0); (0, 0); (1, 0); (0, 0); (0, 0); (0, 1)]%nat /\
   rk s 0 = 3 /\ table s = [].
+Proof. vm_compute. repeat split. Qed.
+
+(* non-vacuity of theorem 8b: the peer's OPEN for stream 0 arrives before this end is
+   established; close() during the handshake; established; the RE-CONFIG task resets stream 0 *)
+Example C13_handshake_close_example :
+  let open0 := [DATA_CHANNEL_OPEN; 0; 0; 0; 0; 0; 0; 0; 0; 1; 0; 0; 120] in
+  let ins := [IRecv 0 WEBRTC_DCEP open0 true []; IClose 0 true; IEstablished; ITransmitReconfig] in
+  let '(s, evs) := run (init 1 100) ins in
+  rk s 0 = 2 /\ nth 3 evs [] = [EvReconfigRequest 100 [0]].
 Proof. vm_compute. repeat split. Qed.
 
 (* non-vacuity of theorem 4: two sends while the association is congested leave
